@@ -86,7 +86,8 @@ def gen_text(rng, big):
             text.append(rng.choice(["", "# a comment line", "#", "   "]))
         lead = rng.choice(["", " ", "\t", "    "]) if indent == "mixed" else indent
         text.append(lead + l + rng.choice(["", "", " ", "\t"]))
-    return {"text": "\n".join(text) + ("\n" if rng.random() < 0.7 else ""), "ast": {"inputs": ins, "outputs": list(dict.fromkeys(outs)), "gates": gates, "dffs": dffs}, "order": order, "indent": indent}
+    eol = "\r\n" if rng.random() < 0.08 else "\n"  # files written on another platform
+    return {"text": eol.join(text) + (eol if rng.random() < 0.7 else ""), "ast": {"inputs": ins, "outputs": list(dict.fromkeys(outs)), "gates": gates, "dffs": dffs}, "order": order, "indent": indent}
 
 
 def gen(rng, ctx):
@@ -112,6 +113,8 @@ def check_read(case, ctx):
     ctx.count(f"order:{case['order']}")
     ctx.count(f"indent:{case.get('indent', '')!r}")
     ok, c = ctx.call(cg.io.bench_to_circuit, case["text"], "bt")
+    if "\r\n" in case["text"]:
+        ctx.count("crlf_line_endings")
     if len(case["text"]) % 4 == 0:
         from rv.props._util import repeat_call
 
